@@ -106,6 +106,14 @@ def cases(rng, tier):
 		('client', b'\r\nHTTP/1.1 200 OK\r\nContent-Length: 0\r\n\r\n'),
 		('client', b'HTTP/1.1 200 OK\r\nContent-Length: 2\r\n\r\nhi\r\n\r\nHTTP/1.1 200 OK\r\nContent-Length: 0\r\n\r\n'),
 	]
+	# bodies under a content coding (framed by Content-Length and in several chunks): cut anywhere, also inside the coded octets
+	import gzip as _gz, zlib as _zl
+	for data in (b'hello world ' * 30, bytes(range(256))):
+		for name, coded in ((b'gzip', _gz.compress(data, mtime=0)), (b'deflate', _zl.compress(data))):
+			corpus.append(('server', b'POST / HTTP/1.1\r\nHost: h\r\nContent-Encoding: ' + name + b'\r\nContent-Length: %d\r\n\r\n' % len(coded) + coded + b'GET / HTTP/1.1\r\nHost: h\r\nContent-Length: 0\r\n\r\n'))
+			corpus.append(('client', b'HTTP/1.1 200 OK\r\nContent-Encoding: ' + name + b'\r\nContent-Length: %d\r\n\r\n' % len(coded) + coded))
+			h = len(coded) // 2
+			corpus.append(('server', b'POST / HTTP/1.1\r\nHost: h\r\nContent-Encoding: ' + name + b'\r\nTransfer-Encoding: chunked\r\n\r\n%x\r\n' % h + coded[:h] + b'\r\n%x\r\n' % (len(coded) - h) + coded[h:] + b'\r\n0\r\n\r\n'))
 	for side, s in corpus:
 		yield ('s', side, s, tuple(tuple(c) for c in fragmentations(rng, len(s), k)))
 	# exhaustive cuts for short streams
